@@ -61,14 +61,25 @@ class Impl:
         self._w = regex.compile(r"\w")
 
     def admissible(self, src):
-        """The model alphabet: ASCII below 0x7f and `…`; beyond it a character must be neither white
-        space (str.isspace, regex \\s) nor a word character (regex \\w)."""
-        for ch in set(src):
-            if ord(ch) < 0x7F or ch == "…":
-                continue
-            if ch.isspace() or self._s.match(ch) or self._w.match(ch):
-                return False
+        """Every text is admissible: beyond ASCII the character classes of the model are oracle parameters whose
+        values `OracleDriver` computes with the real engines (kept as a hook; always True)."""
         return True
+
+    def char_classes(self, chars):
+        """(word, space): the non-ASCII characters (other than `…`) that regex `\\w` / `\\s` match. `\\s` and
+        str.isspace agree on every non-ASCII character (checked on all of Unicode at design time; asserted here)."""
+        word, space = [], []
+        for ch in sorted(chars):
+            if ord(ch) < 128 or ch == "…":
+                continue
+            if self._w.match(ch):
+                word.append(ch)
+            sp = bool(self._s.match(ch))
+            if sp != ch.isspace():
+                raise core.MachineryError(f"regex \\s and str.isspace disagree on U+{ord(ch):04X}")
+            if sp:
+                space.append(ch)
+        return "".join(word), "".join(space)
 
     def get_program(self, src):
         try:
@@ -80,6 +91,42 @@ class Impl:
             "addition": {k: [[s.start, s.end] for s in v] for k, v in p.addition.items()},
             "deletion": {k: [[s.start, s.end] for s in v] for k, v in p.deletion.items()},
         }
+
+
+class OracleDriver:
+    """The Lean driver, each request completed with the oracle values (`word`, `space`) of the non-ASCII
+    characters that occur in it, computed with the real `regex` module."""
+
+    def __init__(self, impl):
+        self.impl = impl
+        self.drv = core.Driver()
+
+    @staticmethod
+    def _chars(obj, acc):
+        if isinstance(obj, str):
+            if not obj.isascii():
+                acc.update(ch for ch in obj if ord(ch) >= 128)
+        elif isinstance(obj, dict):
+            for k, v in obj.items():
+                OracleDriver._chars(k, acc)
+                OracleDriver._chars(v, acc)
+        elif isinstance(obj, (list, tuple)):
+            for v in obj:
+                OracleDriver._chars(v, acc)
+
+    def call(self, op, **kw):
+        acc = set()
+        self._chars(kw, acc)
+        if acc:
+            word, space = self.impl.char_classes(acc)
+            kw["word"], kw["space"] = word, space
+        return self.drv.call(op, **kw)
+
+    def close(self):
+        self.drv.close()
+
+    def __getattr__(self, name):  # the other users of the driver (pipe `p`, `batch`, `calls`) see the plain driver
+        return getattr(self.drv, name)
 
 
 def canon_model_program(m):
@@ -176,7 +223,7 @@ def stream_regexes(ctx, impl, drv):
     """R2: each fixed regex / string primitive against its structural transcription."""
     n = 4 if ctx.tier == "quick" else 5
     checks = []
-    toks = list(seqs(["-", "+", ".", "..", "...", "…", "a", "_", "1", ":", "/", "#", "\x1c"], n))
+    toks = list(seqs(["-", "+", ".", "..", "...", "…", "a", "_", "1", ":", "/", "#", "\x1c", "é", "\u00a0"], n))
     r = drv.call("c12.match_label", toks=toks)["r"]
 
     def ml(t):
@@ -187,7 +234,7 @@ def stream_regexes(ctx, impl, drv):
         return ["..." if b == "…" else b, m[2], bool(m[3])]
 
     checks.append(("regex:match_label", toks, r, ml))
-    lines = list(seqs([" ", "\t", "#", MARK, MARK + " ", "x", "...", "\x1c", "\r"], n + 1))
+    lines = list(seqs([" ", "\t", "#", MARK, MARK + " ", "x", "...", "\x1c", "\r", "\u00a0"], n + 1))
     r = drv.call("c12.isolated", lines=lines)["r"]
 
     def iso(l):
@@ -202,7 +249,7 @@ def stream_regexes(ctx, impl, drv):
         return [a, b.split()] if s else None
 
     checks.append(("str:partition+split", lines, r, ht))
-    texts = list(seqs([" ", "\n", "\t", MARK + " ", MARK, "x", "#", "\x1c"], n + 1))
+    texts = list(seqs([" ", "\n", "\t", MARK + " ", MARK, "x", "#", "\x1c", "\u00a0"], n + 1))
     r = drv.call("c12.remove_hints", srcs=texts)["r"]
     checks.append(("regex:sub_hints+strip", texts, r, lambda s: str(impl.ps.remove_hints(s))))
     norm_in = list(seqs(["#", " ", "\t", "paroxython", "PaRoxYthoN", "parox", ":", "x", "p", "\x1c", MARK + " "], n + 1 if ctx.tier == "quick" else n))
@@ -239,7 +286,8 @@ def stream_regexes(ctx, impl, drv):
                 "model": drv.call("c12.match_label", toks=["foo......"])["r"][0]})
 
 
-POOL = ["+L", "-L", "L", "L...", "...L", "…L", "L…", "-L...", "M...", "...M", "-M", "+-L", "...L...", "# x"]
+POOL = ["+L", "-L", "L", "L...", "...L", "…L", "L…", "-L...", "M...", "...M", "-M", "+-L", "...L...", "# x",
+        "été", "-λ", "a\u00a0b", "变\u2028量…", "́x"]
 
 
 def layouts(max_lines, max_toks, pool, codes=("x", "")):
@@ -289,9 +337,11 @@ def stream_layouts(ctx, impl, drv, judge):
         if len(srcs) > 60000:
             srcs = srcs[:20000] + ctx.rng.sample(srcs[20000:], 40000)
     else:
-        kinds = layouts(4, 1, POOL)
-        kinds += [k for k in layouts(4, 1, POOL[:8], codes=("s = 'a\x0cb'", "t\x1cu")) if k not in kinds]
+        kinds = layouts(4, 1, POOL[:14])  # 4 lines over the ASCII pool, 3 lines over the whole pool (10 min budget)
         srcs = ["\n".join(t) for k in (1, 2, 3, 4) for t in itertools.product(kinds, repeat=k)]
+        kinds3 = layouts(3, 1, POOL)
+        kinds3 += [k for k in layouts(3, 1, POOL[:8], codes=("s = 'a\x0cb'", "t\x1cu")) if k not in kinds3]
+        srcs += ["\n".join(t) for k in (1, 2, 3) for t in itertools.product(kinds3, repeat=k)]
         kinds2 = layouts(3, 2, POOL[:10])
         more = ["\n".join(t) for k in (1, 2, 3) for t in itertools.product(kinds2, repeat=k)]
         srcs += more if len(more) <= 400000 else ctx.rng.sample(more, 400000)
@@ -313,9 +363,11 @@ def stream_layouts(ctx, impl, drv, judge):
 
 
 LABELS = ["foo", "bar:baz", "a/b", "x.y", "l_1", "if", "loop:for", "meta/topic/fun", "A", "0",
-          "a...b", "x…y", "f(x)", "a+b", "a-b", "_", "paroxython:x"]
+          "a...b", "x…y", "f(x)", "a+b", "a-b", "_", "paroxython:x",
+          "été", "λ", "变量", "e\u0301t", "naïve/taxon", "a…b:c", "\u00b5s"]
+NON_ASCII_CODE = ["s = 'été\u00a0x'", "z = 'a\u2028b'  # é", "λ = 1", "变量 = λ + 1"]
 LINEBREAK_LIKE = ["s = 'a\x0cb'", "t = \"x\x0by\"", "u = 'p\x1cq'", "v = 'm\x1dn\x1eo'", "w = 'c\rd'", "k = '\x0c'  # ff"]
-CODE = LINEBREAK_LIKE[:5] + ["x = 1", "y = x + 1", "print(x)", "for i in range(3):", "    pass", "if x:", "    y = 2", "", "def f(a):",
+CODE = LINEBREAK_LIKE[:5] + NON_ASCII_CODE + ["x = 1", "y = x + 1", "print(x)", "for i in range(3):", "    pass", "if x:", "    y = 2", "", "def f(a):",
         "    return a", "z = [1, 2]", "while x: x -= 1", "s = '# not a hint'", "t = \"...\""]
 
 
@@ -589,7 +641,7 @@ def stream_unicode_linebreaks(ctx, impl, drv, judge):
     for _ in range(n):
         rng = ctx.rng
         ch = rng.choice(["\x85", "\u2028", "\u2029", "\x0c", "\x1c", "\x1e", "\x0b"])
-        base = [rng.choice(CODE[5:]) for _ in range(rng.randint(2, 5))]
+        base = [rng.choice(CODE[9:]) for _ in range(rng.randint(2, 5))]
         k = rng.randrange(len(base))
         base[k] = "q = 'a" + ch + "b'" if rng.random() < 0.7 else base[k] + "  # c" + ch + "d"
         layout = gen_decorated(rng, base, labels=LABELS[:8])
@@ -691,6 +743,50 @@ DUPLICATES = [
 ]
 
 
+# Programs whose labels come from the SQL features defined by an alternation / unusual key of spec.md
+# (`concatenation_operator|replication_operator`, `try_raise|try_except`, `higher-order function`, ...).
+ALT_PROGRAMS = [
+    ["s = 'a' + 'b'", "t = [0] * 3", "u = 'x' * 2 + 'y'"],
+    ["if a == b == c:", "    pass", "if a < b <= c:", "    pass", "x = a != b != c", "y = 0 <= i < n"],
+    ["class A:", "    def m(self):", "        return 1", "    @classmethod", "    def c(cls):", "        return 2",
+     "    @staticmethod", "    def s():", "        return 3"],
+    ["def h(f, x):", "    return f(x)", "print(list(map(abs, [1, -2])))", "y = sorted(z, key=len)"],
+    ["def g(x):", "    try:", "        if x < 0:", "            raise ValueError", "        y = 1 / x",
+     "    except ZeroDivisionError:", "        y = 0", "    except ValueError:", "        y = -1", "    return y"],
+    ["def count(seq):", "    n = 0", "    for x in seq:", "        n += 1", "    return n", "def count_even(seq):",
+     "    n = 0", "    for x in seq:", "        if x % 2 == 0:", "            n += 1", "    return n"],
+    ["n = 0", "while n < 10:", "    n += 1", "c = 0", "for i in range(10):", "    if i % 3 == 0:", "        c = c + 1",
+     "k = 0", "while k < 10:", "    if k % 2:", "        k += 1", "    k += 2"],
+    ["def all_pos(seq):", "    for x in seq:", "        if x <= 0:", "            return False", "    return True",
+     "def any_neg(seq):", "    for x in seq:", "        if x < 0:", "            return True", "    return False"],
+]
+
+
+def alternation_cases(ctx, impl, rec):
+    """(program, targets, dotted): deletions aimed at each label produced by an SQL feature whose key in
+    `ProgramParser().queries` is not a plain identifier, one at a time and in pairs, `-L` and `-L... ...L` forms."""
+    keys = list(rec.parser.queries)
+    unusual = [i for i, k in enumerate(keys) if not impl.regex.fullmatch(r"\w+", k)]
+    ctx.dist("end-to-end:unusual-query-keys", len(unusual))
+    cases = []
+    for base in ALT_PROGRAMS:
+        try:
+            labels0 = rec.run(quiet(impl.lp.get_program, "\n".join(base)))
+        except Exception:  # noqa
+            continue
+        if rec.seeded is None or len(rec.derived) != len(keys):
+            continue
+        names = {row[0] for i in unusual for row in rec.derived[i]}
+        targets = sorted({(nm, s, e) for nm, spans in labels0 if nm in names for (s, e, _p) in spans
+                          if not any(ch.isspace() for ch in nm)})
+        for j, t in enumerate(targets):
+            cases.append((base, [t], j % 2 == 1))
+        for j in range(0, len(targets) - 1, 2):
+            cases.append((base, [targets[j], targets[j + 1]], j % 4 == 0))
+    ctx.dist("end-to-end:alternation-deletion-cases", len(cases))
+    return cases
+
+
 def stream_end_to_end(ctx, impl, drv, judge, real_programs):
     rec = Recorder(impl)
     small = []
@@ -706,7 +802,8 @@ def stream_end_to_end(ctx, impl, drv, judge, real_programs):
         if 2 <= len(ls) <= 25 and all(l == l.rstrip() for l in ls):
             small.append(ls)
     ctx.dist("end-to-end:cleaned-programs", len(small))
-    n = 60 if ctx.tier == "quick" else 1200
+    forced = alternation_cases(ctx, impl, rec)
+    n = (60 if ctx.tier == "quick" else 1200) + len(forced)
     done = 0
     tries = 0
     nbind = 0
@@ -714,7 +811,10 @@ def stream_end_to_end(ctx, impl, drv, judge, real_programs):
         tries += 1
         rng = ctx.rng
         r0 = rng.random()
-        if tries <= 5 or r0 < 0.2:  # programs with several computed occurrences of one label on one line range
+        plan = forced.pop(0) if forced else None
+        if plan is not None:
+            base = list(plan[0])
+        elif tries <= 5 or r0 < 0.2:  # programs with several computed occurrences of one label on one line range
             base = list(DUPLICATES[(tries - 1) % len(DUPLICATES)] if tries <= 5 else rng.choice(DUPLICATES))
         elif small and r0 < 0.8:
             base = list(rng.choice(small))
@@ -754,7 +854,15 @@ def stream_end_to_end(ctx, impl, drv, judge, real_programs):
         dups = [k for k, v in mult.items() if v >= 2 and base[k[1] - 1].strip() and base[k[2] - 1].strip()]
         dups_sql = [k for k in dups if k[0] not in regex_names]
         ndup = 0
-        if dups and (tries <= 5 or rng.random() < 0.5):
+        if plan is not None:  # deletions aimed at the labels of the alternation / unusual SQL feature keys
+            for (nm, s_, e_) in plan[1]:
+                if s_ == e_ and not plan[2]:
+                    lines[s_ - 1]["hints"].append({"mark": "one-", "label": nm})
+                else:
+                    lines[s_ - 1]["hints"].append({"mark": "opn-", "label": nm, "uni": plan[2] and s_ != e_})
+                    lines[e_ - 1]["hints"].append({"mark": "cls", "label": nm})
+            ndup = len(plan[1])
+        elif dups and (tries <= 5 or rng.random() < 0.5):
             for key in ([rng.choice(dups)] + ([rng.choice(dups_sql)] if dups_sql and rng.random() < 0.7 else [])):
                 nm, s_, e_ = key
                 if any(h["label"] == nm for l in lines for h in l["hints"]):
@@ -773,7 +881,7 @@ def stream_end_to_end(ctx, impl, drv, judge, real_programs):
             ctx.dist("end-to-end:duplicate-deletion-cases", 1 if ndup else 0)
             ctx.dist("end-to-end:duplicate-deletion-sql-stage", sum(1 for k in dups_sql if any(
                 h["label"] == k[0] for l in lines for h in l["hints"])))
-        for _ in range(rng.randint(0 if ndup else 1, 5)):
+        for _ in range(0 if plan is not None else rng.randint(0 if ndup else 1, 5)):
             kind = rng.random()
             if clean and kind < 0.6:
                 nm, s, e = rng.choice(clean)
@@ -960,7 +1068,7 @@ def stream_corpus(ctx, impl, drv, judge):
 def run(ctx):
     core.prove(ctx)
     impl = Impl()
-    drv = core.Driver()
+    drv = OracleDriver(impl)
     try:
         judge = Judge(ctx, impl, drv)
         real = load_real_programs(impl)
@@ -995,8 +1103,9 @@ def run(ctx):
         "token-level bounded-exhaustive streams above (testing, not proof)",
         "R1: the answers of the `regex` engine on the 173 features and of SQLite on the derivation queries are parameters "
         "of the parser-glue model (recorded from the real run)",
-        "model alphabet: code points < 0x7f and U+2026; other characters only when they are neither white space nor word "
-        "characters for str.isspace / regex \\s / regex \\w (checked on every generated text)",
+        "character classes beyond ASCII (regex \\w, regex \\s = str.isspace) are ORACLE parameters of the model and of every "
+        "theorem; for each request the harness computes them with the real engines for the non-ASCII characters that occur "
+        "in it (no input is filtered out)",
     ]
     ctx.assumptions += [
         "C12_roundtrip: code lines are single lines without any look-alike of the marker and without trailing white space; "
@@ -1027,7 +1136,7 @@ def run(ctx):
 def replay(ctx, path):
     obj = json.loads(Path(path).read_text(encoding="utf-8"))
     impl = Impl()
-    drv = core.Driver()
+    drv = OracleDriver(impl)
     try:
         src = obj.get("src")
         if src is None:
